@@ -1,0 +1,1 @@
+//! Verification facade (cfg-gated): pruner family.  See `crate::verif`.
